@@ -48,9 +48,9 @@ SIDE_KINDS = {'L': ['con', 'mcon', 'ires', 'pres'], 'D': ['rep', 'mrep', 'ires',
 
 CON_TAGS = ['!a', '!b', 'tag:yaml.org,2002:int', None, '!y1', 'tag:yaml.org,2002:str']
 MCON_PREFIXES = ['!p/', '!q/', None, 'tag:example.com,2000:']
-TYPES = ['TA', 'TB', 'TC', 'int', 'None', 'str']
+TYPES = ['TA', 'TB', 'TC', 'int', 'None', 'str', 'TUP']
 REGEXES = [r'^x\d+$', r'^y.*$', r'^\d+$', r'^(?:x1|zz)$']
-FIRSTS = [['x'], ['x', 'y'], None, ['1', '2'], ['z', 'x'], 'xy', ['y', None], [''], ['z']]
+FIRSTS = [['x'], ['x', 'y'], None, ['1', '2'], ['z', 'x'], 'xy', ['y', None], [''], ['z'], ['x1'], ['xy', 'z'], ['y', 'y2']]
 IRES_TAGS = ['!ix', '!iy', 'tag:yaml.org,2002:int']
 PATHS = [[], ['k1'], ['k1', 'k2'], ['k3', 0], ['k3']]
 PKINDS = [None, 'str', 'list', 'dict']
@@ -206,6 +206,8 @@ def generate(seed, tier):
             op.update(gen_pres_args(r, fail_p))
         if kind in ('con', 'mcon', 'rep', 'mrep') and r.random() < fail_p * 0.5:
             op['bad'] = 'unhashable'
+        elif kind in ('con', 'mcon', 'rep', 'mrep') and r.random() < 0.06:
+            op['value_none'] = True        # None registered as the callable (a table entry like any other)
         lpool = LOADERS + lsubs * 3
         dpool = DUMPERS + dsubs * 3
         if module:
@@ -261,13 +263,16 @@ def make_world(yaml):
     class TC:
         def __repr__(self):
             return 'TC()'
-    w['types'] = {'TA': TA, 'TB': TB, 'TC': TC, 'int': int, 'str': str, 'None': None}
+    w['types'] = {'TA': TA, 'TB': TB, 'TC': TC, 'int': int, 'str': str, 'None': None, 'TUP': (TA, TC)}    # TUP: a tuple as key (hashable, never matches)
     w['regex'] = [re.compile(p) for p in REGEXES]
     w['nodecls'] = {'str': yaml.ScalarNode, 'list': yaml.SequenceNode, 'dict': yaml.MappingNode, None: None}
     return w
 
 
 def label_callable(w, f):
+    if f is None:
+        w['objects'].setdefault('V:None', None)
+        return 'V:None'
     cb = getattr(f, '_cbid', None)
     if cb is not None:
         lab = 'H:' + cb
@@ -278,7 +283,7 @@ def label_callable(w, f):
         else:
             lab = 'S:%s.%s' % (getattr(f, '__module__', '?'), getattr(f, '__qualname__', type(f).__name__))
     prev = w['objects'].get(lab)
-    if prev is None:
+    if prev is None and lab not in w['objects']:
         w['objects'][lab] = f
     elif prev is not f and prev != f:
         raise RuntimeError('label collision: %s' % lab)
@@ -527,10 +532,10 @@ def real_args(w, op, idx):
     kind = op['kind']
     if kind in ('con', 'mcon'):
         key = [] if op.get('bad') == 'unhashable' else op['key']
-        return [key, make_cb(w, kind, idx, structural=op['key'] is None)]
+        return [key, None if op.get('value_none') else make_cb(w, kind, idx, structural=op['key'] is None)]
     if kind in ('rep', 'mrep'):
         key = [] if op.get('bad') == 'unhashable' else w['types'][op['key']]
-        return [key, make_cb(w, kind, idx)]
+        return [key, None if op.get('value_none') else make_cb(w, kind, idx)]
     if kind == 'ires':
         first = op['first']
         if isinstance(first, dict):
@@ -620,7 +625,7 @@ def step(w, model, op, idx):
         return pred, 'ok', [op['name']]
     if op['op'] == 'add':
         args = real_args(w, op, idx)
-        pred = model.add(op['target'], kind, op, 'H:%s:%d' % (kind, idx))
+        pred = model.add(op['target'], kind, op, 'V:None' if op.get('value_none') else 'H:%s:%d' % (kind, idx))
         obs = outcome_of(lambda: getattr(w['cls'][op['target']], METHOD[kind])(*args))
         return pred, obs, model.heirs(op['target'])
     if op['op'] == 'mod':
@@ -629,7 +634,7 @@ def step(w, model, op, idx):
         touched = []
         for t in fan_out(op):
             touched += model.heirs(t)
-            pred = model.add(t, kind, op, 'H:%s:%d' % (kind, idx))
+            pred = model.add(t, kind, op, 'V:None' if op.get('value_none') else 'H:%s:%d' % (kind, idx))
             if pred != 'ok':
                 break
         kw = {}
@@ -854,10 +859,27 @@ def predict_nested(model, name, shape):
     return node(shape)
 
 
+def predict_tag(model, name, value):
+    """resolve() restated: the resolvers filed under the scalar's first character, then the wildcard ones; the
+    first regular expression that matches wins.  NOPRED when path resolvers could decide."""
+    if model.eff(name, 'pres'):
+        return NOPRED
+    ires = model.eff(name, 'ires')
+    cands = list(ires.get(repr(value[0] if value else ''), [])) + list(ires.get('None', []))
+    for tag, rx in cands:
+        _, flags, pattern = rx.split(':', 2)
+        if re.compile(pattern, int(flags)).match(value):
+            return tag
+    return STR_TAG
+
+
 def predicted_marker(w, model, name, probe):
     """What the restated dispatch rule says about a probe, when it says something checkable."""
     kind, arg = probe
     side = model.classes[name]['side']
+    if side == 'L' and kind == 'tag':
+        pred = predict_tag(model, name, arg)
+        return None if pred is NOPRED else ['tag', pred]
     if side == 'L' and kind == 'load' and arg in NESTED_PROBES:
         pred = predict_nested(model, name, NESTED_PROBES[arg])
         return None if pred is NOPRED else ['nested', pred]
@@ -892,6 +914,8 @@ def predicted_marker(w, model, name, probe):
 
 
 def marker_matches(w, model, pred, got):
+    if pred[0] == 'tag':
+        return got == pred
     if pred[0] == 'nested':
         if got[0] == 'exc':
             return True       # e.g. a marker made the key unhashable elsewhere: nothing to conclude
